@@ -64,7 +64,9 @@ def gen_db(rng, tier, seed):
         pushes.insert(rng.randrange(len(pushes) + 1), ['indicate_subscribers', pick, 0, 0, rng.choice([-1, 0, 1, 2])])
     return {'db': db, 'client_mtu': cm, 'server_mtu': sm, 'exchange': rng.random() < 0.8, 'nclients': nclients, 'eatt': eatt,
             'eatt_mtu': [rng.choice([64, 100, 247]), rng.choice([64, 100, 247])], 'subs': subs, 'pushes': pushes,
-            'writes': rng.randint(0, 4), 'profile': rng.choice(PROFILE_NAMES), '_lists': ['subs', 'pushes']}
+            'writes': rng.randint(0, 4), 'profile': rng.choice(PROFILE_NAMES), '_lists': ['subs', 'pushes'],
+            # the application notifies the current state as soon as somebody subscribes; the first long read races the MTU exchange
+            'push_on_subscribe': rng.random() < 0.3, 'mtu_race': rng.random() < 0.3}
 
 
 def run_db(case):
@@ -98,7 +100,24 @@ def run_db(case):
             peer = Peer(cc)
             mtu = 23
             if case['exchange']:
+                race = None
+                if case.get('mtu_race'):
+                    # a long read started while the MTU exchange is in flight must still return the whole value
+                    cand = [(layout[si]['chars'][ci]['value_handle'], ch) for (si, ci), ch in built.char_objs.items()
+                            if case['db']['services'][si]['chars'][ci]['props'] & 0x02 and len(gattdb.current_value(ch)) > 22]
+                    if cand:
+                        race = (sim.loop.create_task(peer.gatt_client.read_value(cand[0][0])), cand[0][1])
+                        sim.probe('long_read_racing_mtu_exchange')
                 st, t = sim.run(peer.request_mtu(case['client_mtu']), 60.0)
+                if race is not None:
+                    sim.loop.drive(race[0].done, vt_budget=120.0, step_budget=400_000)
+                    if not race[0].done():
+                        sim.violation_once('read', 'read-hang:racing-mtu-exchange', describe_task(race[0]))
+                        race[0].cancel()
+                    elif race[0].exception() is not None:
+                        sim.violation_once('read', f'read-raised:racing-mtu-exchange:{type(race[0].exception()).__name__}', repr(race[0].exception()))
+                    elif bytes(race[0].result()) != gattdb.current_value(race[1]):
+                        sim.violation_once('read', 'read-value-mismatch:racing-mtu-exchange', f'read {len(race[0].result())} bytes, value has {len(gattdb.current_value(race[1]))} bytes')
                 if st != 'done' or t.exception() is not None:
                     sim.violation_once('mtu', 'mtu-exchange-failed', str(st if st != 'done' else t.exception()))
                     return result(sim, nontrivial=False)
@@ -194,6 +213,13 @@ def run_db(case):
         subscribed = {}  # (bearer index, value handle) -> 'notify'|'indicate'
         fired = {}  # (bearer index, value handle) -> list of values
         if sub_chars:
+            hello = {}
+            if case.get('push_on_subscribe'):
+                for (si, ci), ch in sub_chars:
+                    def on_sub(bearer, notify_enabled, indicate_enabled, ch=ch):
+                        if notify_enabled:
+                            sim.loop.create_task(server.notify_subscriber(bearer, ch, b'hello'))
+                    ch.on('subscription', on_sub)
             for bi, pick, prefer in case['subs']:
                 bi %= len(bearers)
                 b = bearers[bi]
@@ -211,6 +237,11 @@ def run_db(case):
                     sim.violation_once('sub', f'subscribe-failed:{b["kind"]}', str(st if st != 'done' else t.exception()))
                     continue
                 subscribed[(bi, vh)] = kind
+                if case.get('push_on_subscribe') and kind == 'notify':
+                    sim.loop.settle(vt_budget=2.0)
+                    sim.probe('notification_sent_on_subscription')
+                    if b'hello'[:b['mtu'] - 3] not in fired[(bi, vh)]:
+                        sim.violation_once('sub-hello', f'notification-right-after-subscription-lost:{b["kind"]}', f'{b["name"]}: the server notified as soon as the CCCD was written; the subscriber got {fired[(bi, vh)]}')
             # wire tap on the server: confirmations seen
             conf = {'n': 0}
             L2capTap(sim, srv_node, lambda d, h, cid, p: conf.__setitem__('n', conf['n'] + 1) if d == 'in' and ((cid == 4 and p[:1] == b'\x1e') or (cid >= 0x40 and p[2:3] == b'\x1e' and len(p) == 3)) else None)
